@@ -56,7 +56,7 @@ class Group(ModelObject):
         if name == "mult":
             if not self.with_mult:
                 raise PyRaise("AttributeError", ("mult",))
-            return ("mult-of", self)
+            return MultCol(self)
         if name == "to_records":
 
             def to_records(interp, index=True):
@@ -94,6 +94,33 @@ class Group(ModelObject):
             cx.oblige(f"{label}: rows of the group scheduled for this step", actual.g == self.g, kind=kind)
 
 
+class MultCol(ModelObject):
+    """The mult column of a group (a pandas Series): supports max()/sum() as symbolic reductions."""
+
+    def __init__(self, grp):
+        self.grp = grp
+
+    def pv_getattr(self, cx, name):
+        g = self.grp.g
+        if name == "max":
+
+            def mx(interp):
+                m = cx.fresh("maxmult")
+                w = cx.fresh("argmaxmult")
+                n = Group.nrows_f(g)
+                cx.assume(z3.Implies(n > 0, z3.And(w >= 0, w < n, Group.mult_f(g, w) == m)))
+                cx.univ.append(UnivFact(1, lambda i: z3.Implies(z3.And(i >= 0, i < n), Group.mult_f(g, i) <= m)))
+                return m
+
+            mx._pyvc_model = True
+            return mx
+        if name == "sum":
+            f = lambda interp: self.grp.total()  # noqa: E731
+            f._pyvc_model = True
+            return f
+        raise Unsupported(f"Series.{name}")
+
+
 class Records(ModelObject):
     def __init__(self, grp):
         self.grp = grp
@@ -103,7 +130,7 @@ class Records(ModelObject):
         if name == "repeat":
 
             def repeat(interp, m):
-                if not (isinstance(m, tuple) and m[0] == "mult-of" and m[1] is me.grp):
+                if not (isinstance(m, MultCol) and m.grp is me.grp):
                     raise Unsupported("repeat by something else than the group's own mult column")
                 return Records(Group(cx, me.grp.g, me.grp.cols, me.grp.with_mult, repeated=True))
 
